@@ -30,6 +30,26 @@ Theorem C07_pipelined_flush_invisible : forall store ops o k,
 Proof. exact C07_pipelined_flush_invisible_proof. Qed.
 Print Assumptions C07_pipelined_flush_invisible.
 
+(* PipelinedMemDB.BatchGet and BufferBatchGetter over it, in ANY state and for arbitrary key lists (duplicates
+   included): the buffer's map holds exactly the requested keys found in (mutable buffer, flushing buffer,
+   flushed store) with those values (flushed deletions as empty values); the snapshot is handed exactly the
+   requested keys found in none of them; the transaction's result is the overlay restricted to the requested
+   keys — a flushed or buffered deletion hides the snapshot's value. *)
+Theorem C07_pipelined_batch_get : forall st snap keys, no_tomb snap -> dsorted false snap ->
+  (forall k, kv_get (fst (p_batch_get st keys)) k = if key_mem k keys then p_lookup st k else None) /\
+  let '(handed, res) := pu_batch_get snap st keys in
+  handed = filter (fun k => match p_lookup st k with None => true | Some _ => false end) keys /\
+  dsorted false res /\
+  forall k, kv_get res k =
+    if key_mem k keys
+    then match (match p_lookup st k with Some v => Some v | None => kv_get snap k end) with
+         | Some v => if is_tomb v then None else Some v
+         | None => None
+         end
+    else None.
+Proof. exact C07_pipelined_batch_get_proof. Qed.
+Print Assumptions C07_pipelined_batch_get.
+
 (* regression witness (seed C07-6): reading a cached empty value as "not in the flushed store" resurrects a
    key whose deletion has been flushed: Delete(a); Flush; FlushWait; BatchGet([a]); Get(a) over snapshot {a: x} *)
 Theorem C07_pipelined_empty_as_miss_refuted : exists ops snap k,
@@ -47,5 +67,5 @@ Example pipelined_example :
   pu_get snap st [97] = None /\ pu_get snap st [98] = Some [9] /\ pu_get snap st [99] = Some [3] /\
   pu_get snap st [100] = Some [4] /\ p_cache st = None /\ p_flushing st = None /\
   p_store st = [([97], []); ([98], [9]); ([100], [4])] /\
-  fst (pu_batch_get snap st [[97]; [97]; [99]; [100]]) = [[99]].
+  pu_batch_get snap st [[97]; [97]; [99]; [100]] = ([[99]], [([99], [3]); ([100], [4])]).
 Proof. vm_compute. repeat split; reflexivity. Qed.
